@@ -118,7 +118,7 @@ pub fn strings() -> Vec<&'static str> {
 /// Strings that mean something to a built-in: unit names (with the degree sign), zone names, duration and
 /// timestamp text, a broken and a valid regular expression.
 pub fn dictionary() -> Vec<&'static str> {
-    vec!["°C", "°", "kg", "US/Pacific", "1h30m", "(a", "a+", "2024-02-29T12:00:00+01:00"]
+    vec!["°C", "°", "kg", "US/Pacific", "1h30m", "(a", "a+", "2024-02-29T12:00:00+01:00", "a(b)?c", "ac", "(a)|(b)"]
 }
 
 pub fn bytes() -> Vec<Vec<u8>> {
